@@ -187,6 +187,12 @@ class Check:
         if not lines:
             return []
         with LakeLock():
+            mod = "YawVerif.Drv.Spec" if which == "SpecDriver" else f"YawVerif.Drv.{which}"
+            b = run(["lake", "build", mod], cwd=LEAN, timeout=3600)
+            if b.returncode != 0:
+                self.tie_breaks.append({"kind": "driver-does-not-build", "driver": which,
+                                        "errors": [l for l in (b.stdout + b.stderr).splitlines() if "error" in l][:10]})
+                return None
             r = run(["lake", "env", "lean", "--run", f"{which}.lean"], cwd=LEAN, input="\n".join(lines) + "\n",
                     timeout=3600)
         if r.returncode != 0:
